@@ -4,15 +4,19 @@ package main
 
 import (
 	"bufio"
+	"context"
 	"encoding/json"
 	"fmt"
+	"log/slog"
 	"os"
 	"path/filepath"
 	"regexp"
+	"runtime"
 	"sort"
 	"strconv"
 	"strings"
 	"sync"
+	"sync/atomic"
 	"time"
 
 	"github.com/cinar/indicator/v2/asset"
@@ -218,6 +222,14 @@ func runBacktestScenario(sc *btScenario, tmp string) map[string]any {
 	case "html":
 		h := backtest.NewHTMLReport(dir)
 		h.WriteStrategyReports = false
+		// schedule gate through the report's own Logger field: AssetEnd logs "Best outcome" between taking the asset's
+		// results and recording its best one; holding the workers there (yielding, no timer, never blocking for good)
+		// makes the AssetEnd calls of min(workers, assets) workers overlap
+		need := sc.Workers
+		if len(sc.Assets) < need {
+			need = len(sc.Assets)
+		}
+		h.Logger = slog.New(&gateHandler{need: int32(need)})
 		rep = h
 		defer os.RemoveAll(dir)
 	}
@@ -297,3 +309,23 @@ func backtestChildMain(args []string) {
 }
 
 func init() { extraCmds["backtest-child"] = backtestChildMain }
+
+// gateHandler is a slog.Handler that discards every record and, on "Best outcome", waits (yielding) until `need` workers
+// have arrived or a bounded number of yields has passed.
+type gateHandler struct {
+	need    int32
+	arrived atomic.Int32
+}
+
+func (g *gateHandler) Enabled(context.Context, slog.Level) bool { return true }
+func (g *gateHandler) Handle(_ context.Context, r slog.Record) error {
+	if r.Message == "Best outcome" {
+		g.arrived.Add(1)
+		for i := 0; i < 200000 && g.arrived.Load() < g.need; i++ {
+			runtime.Gosched()
+		}
+	}
+	return nil
+}
+func (g *gateHandler) WithAttrs([]slog.Attr) slog.Handler { return g }
+func (g *gateHandler) WithGroup(string) slog.Handler      { return g }
